@@ -381,3 +381,10 @@ func (rn *RawNode) VerifInfo() VerifInfo {
 	}
 	return vi
 }
+
+// VerifTerm is raftLog.term(i).
+func (rn *RawNode) VerifTerm(i uint64) (uint64, error) { return rn.raft.raftLog.term(i) }
+
+// VerifConfState is the active configuration as a ConfState (including AutoLeave, which
+// Status().Config drops).
+func (rn *RawNode) VerifConfState() *pb.ConfState { return rn.raft.trk.ConfState() }
